@@ -76,6 +76,16 @@ def _job(job):
     from athlib import check_event_code
     from athlib.utils import FIELD_EVENT_RECORDS_BY_GENDER as RECORDS
     code, loose, tl = job
+    if isinstance(code, (list, tuple)):
+        # a group of spellings of one discipline, asked in turn for every text (the order rotating): what the function
+        # answers for one spelling must not depend on which other spelling it has seen before
+        out = []
+        group = list(code)
+        for i, item in enumerate(tl):
+            k = i % len(group)
+            for c in group[k:] + group[:k]:
+                out += _job((c, loose, [item]))
+        return out
     out = []
     try:
         dist = get_distance(code)
@@ -142,6 +152,15 @@ def run(tier):
             jobs.append((c, True, combos + tl_small))
         for c in extra:
             jobs.append((c, False, combos[::4]))
+        # spelling groups (letter case): one process serves all spellings of a discipline, in rotating and reversed order
+        for c in CODES:
+            grp = []
+            for v in (c, c.lower(), c.capitalize(), c.upper(), c.swapcase()):
+                if v not in grp:
+                    grp.append(v)
+            if len(grp) > 1:
+                jobs.append((grp, False, combos[::3]))
+                jobs.append((list(reversed(grp)), False, combos[1::3]))
         # the (discipline, text) pairs the repository's own tests use, with every option column
         suite = {}
         for call in common.suite_corpus().get('athlib.utils.check_performance_for_discipline', []):
@@ -156,7 +175,7 @@ def run(tier):
         recs, meta = [], []
         for (c, loose, tl), part in zip(jobs, parts):
             for x in part:
-                meta.append((c, x.pop('_t'), x.pop('_g'), x.pop('_r'), x.pop('_site')))
+                meta.append((''.join(chr(k) for k in x['code']), x.pop('_t'), x.pop('_g'), x.pop('_r'), x.pop('_site')))
                 recs.append(x)
         rep.count('evaluations', len(recs) * 2)
         reports, outs = common.validate_records(specdir, sc, 'Trace_PerfCheck', recs, timeout=3000)
